@@ -10,9 +10,12 @@ for m in sorted(glob.glob(os.path.join(V, "seeded", "*", "meta.json"))):
     summary = d.get("summary", "")
     own = d["breaks_property"]
     caught = d.get("caught_by_quick", [])
-    owns = "quick" if own in caught else ("thorough" if "CAUGHT" in d.get("own_check_thorough_when_quick_missed", "") else "**missed**")
+    owns = "quick" if own in caught else ("thorough" if "CAUGHT" in d.get("own_check_thorough_when_quick_missed", "") else ("not its clause (see note)" if d.get("note") else "**missed**"))
     others = [c for c in caught if c != own]
-    key = d.get("first_finding_key", {}).get(own, "")[:90]
+    key = d.get("first_finding_key", {}).get(own, "").split(" :: ")[0][:110]
+    if own not in caught and caught:
+        key = "(" + caught[0] + ") " + d.get("first_finding_key", {}).get(caught[0], "").split(" :: ")[0][:100]
+    summary = summary + " — needs: " + d.get("needs_to_manifest", "").split(" (details:")[0]
     rows.append(f"| {sid} | {summary} | {owns} | {', '.join(others) or '—'} | `{key}` |")
 print("| seeded change | what it does / what it needs | own check | also caught by (quick) | first finding key of the own check |")
 print("|---|---|---|---|---|")
